@@ -182,6 +182,8 @@ def main(run, tier):
                        'objects are allocated inside the per-call closures, nothing consumable or mutable is shared; the '
                        'behavioural consequence is cross-checked on bounded call histories')
     run.floor = 40
+    from . import printfwd
+    printfwd.add(run, tier)
     for m in cf.C14['modules']:
         run.function(m, scratch.sha256_file(scratch.module_path(m))[:16])
     frame_obligations(run, cf.C14, 'C14')
